@@ -5,6 +5,7 @@ mod c05;
 mod c06;
 mod c10;
 mod c11;
+mod c12;
 mod c13;
 mod worker;
 mod c14;
@@ -83,6 +84,10 @@ fn real_main(args: Vec<String>) -> i32 {
             let armed = findings::Armed::from_env();
             match prop.as_str() {
                 "C11" => worker::child_loop(&c11::Set::new(tier, armed), from, to),
+                "C12" => {
+                    let seed = std::env::var("VERIF_SEED").ok().and_then(|s| s.trim().parse::<i64>().ok()).unwrap_or(0) as u64;
+                    worker::child_loop(&c12::Pairs::new(tier, seed), from, to)
+                }
                 _ => {
                     let _ = family;
                     eprintln!("unknown worker set");
@@ -112,6 +117,7 @@ fn real_main(args: Vec<String>) -> i32 {
                 "C07" => c06::run(&ctx, true),
                 "C10" => c10::run(&ctx),
                 "C11" => c11::run(&ctx),
+                "C12" => c12::run(&ctx),
                 "C13" => c13::run(&ctx),
                 "C14" => c14::run(&ctx),
                 _ => Err(format!("no check for {}", prop)),
